@@ -268,6 +268,8 @@ def r4(ctx: Ctx) -> None:
             ctx.report(f.where, f"placement-writes {p}.{fl}", f"spectral_layout modifies {fl} (only centres may change)", lineno=f.node.lineno)
     r = ctx.func(MODULE, "Module.recenter_rectangles")
     cr = canon_function(r, ctx.model)
+    from framelint.canon import fold_sums
+    cr = fold_sums(cr)
     crd = deref(cr, single_defs(cr))
     s_ = ("self",)
     loops = [lp for lp in crd if lp[0] == "for" and lp[2] == ("a", s_, "rectangles")]
@@ -282,6 +284,30 @@ def r4(ctx: Ctx) -> None:
             if len(tx) == 1 and len(ty) == 1 and not contains(tx[0][3], rv) and not contains(ty[0][3], rv):
                 from .common import sigma_xy
                 ok = sigma_xy().apply(tx[0][3]) == ty[0][3] and contains(tx[0][3], ("a", ("a", s_, "center"), "x"))
+                # the increment is (new centre) - (centre of mass of the rectangles): the very definition used by
+                # Module.calculate_center_from_rectangles, which every later stage uses to recompute the position
+                b = ("b", 1, 0)
+                gen = lambda body: ("c", ("g", "sum"), (("comp", "gen", (body,), ((b, ("a", s_, "rectangles"), ("k", "bool", True)),)),), ())
+                w = ("a", b, "area")
+                moment = gen((to_poly(("a", ("a", b, "center"), "x")) * to_poly(w)).to_s())
+                want = (to_poly(("a", ("a", s_, "center"), "x")) - to_poly(moment) * to_poly(("inv", gen(w)))).to_s()
+                ctx.site(r.where, "recenter_rectangles: increment = centre - area-weighted centroid of the rectangles", increment=show(tx[0][3])[:200])
+                if ok and tx[0][3] != want:
+                    ctx.report(r.where, "recenter-centroid", "the rectangles of a hard module are not translated by (centre - area-weighted centroid): the position "
+                               "recomputed from the rectangles (calculate_center_from_rectangles) differs from the placed centre, so the disc "
+                               "of an L- or T-shaped macro placed against the die boundary leaves the die", lineno=r.node.lineno,
+                               increment=show(tx[0][3])[:300], expected=show(want)[:300])
+                # sibling: the definition of a module's position from its rectangles is that same centroid
+                k = ctx.func(MODULE, "Module.calculate_center_from_rectangles")
+                ck = fold_sums(canon_function(k, ctx.model))
+                ckd = deref(ck, single_defs(ck))
+                pts = [st[2] for st in ckd if st[0] == "set" and st[1] == ("a", s_, "center")]
+                cx = (to_poly(moment) * to_poly(("inv", gen(w)))).to_s()
+                ctx.site(k.where, "calculate_center_from_rectangles: centre = area-weighted centroid (the position recenter_rectangles establishes)")
+                if not (len(pts) == 1 and pts[0][0] == "c" and pts[0][1] == ("g", "Point") and len(pts[0][2]) == 2 and pts[0][2][0] == cx
+                        and sigma_xy().apply(pts[0][2][0]) == pts[0][2][1]):
+                    ctx.report(k.where, "centroid-definition", "the centre recomputed from the rectangles is not the area-weighted centroid that recenter_rectangles "
+                               "moves onto the placed centre", lineno=k.node.lineno)
     facts = ctx.cfg(r).facts_at(EXIT)
     guard_ok = ("a", s_, "is_hard") in facts and mk_not(("a", s_, "is_fixed")) in facts
     if not ok or not guard_ok:
